@@ -575,7 +575,7 @@ def gen_wrap_tables():
 EXC_MAP = {'KeyboardInterrupt': ['.kbInt'], 'SystemExit': ['.sysExit'], 'BaseException': ['.sysExit', '.kbInt', '.special', '.other'],
            'Exception': ['.special', '.other']}
 RISKY_KERNPROF = ('execfile(', 'execfile_(', 'run_module(', 'rmod_(', 'autoprofile.run(', 'prof.runctx(', 'find_script(', 'find_module_script(', 'prof.dump_stats(')
-RISKY_WRAP = ('func(*args', 'exec(cmd', 'method(input_)', 'await ')
+RISKY_WRAP = ('func(*args', 'exec(cmd', 'method(input_)', 'await ', 'g.close(', 'g.throw(', 'g.send(', 'g.aclose(', 'g.athrow(', 'g.asend(', 'next(g')      # every call into the wrapped object runs user code
 
 
 SKEL_ROLES = [
